@@ -67,4 +67,6 @@ Definition p_unsubscribe_req : parser unsubscribe_req :=
   pid <- p_N ;; ps <- p_list p_prop ;; ts <- p_list p_bytes ;;
   p_ret {| uq_pid := pid; uq_props := ps; uq_topics := ts |}.
 Definition p_disconnect_req : parser disconnect_req :=
-  r <- p_opt p_N ;; ps <- p_opt (p_list p_prop) ;; p_ret {| dq_reason := r; dq_props := ps |}.
+  r <- p_opt p_N ;; ps <- p_opt (p_list p_prop) ;;
+  (* Disconnect::with_properties: attaching properties to a reason-less DISCONNECT sets ReasonCode::Success *)
+  p_ret {| dq_reason := match r, ps with None, Some _ => Some 0 | _, _ => r end; dq_props := ps |}.
